@@ -326,4 +326,76 @@ theorem evInv_run (fix : Bool) (c : Conn) (base : Obj) (bits : List Bool) (s : C
     · exact evInv_stepLoop fix c base s h
     · exact evInv_stepWorker c base s h
 
+/-! ## 4. Exactly the changing updates are handed to the loop, in order -/
+
+/-- What the worker still owes, seen from an intermediate configuration. -/
+def owed (s : Cfg) : List Obj :=
+  match s.wpc with
+  | .idle => changes s.value s.wups
+  | .wAssign o ch => (if ch then [o] else []) ++ changes o s.wups
+  | .wClear0 o ch => (if ch then [o] else []) ++ changes o s.wups
+  | .wClear1 o ch => (if ch then [o] else []) ++ changes o s.wups
+  | .wTopic d => [d] ++ changes d s.wups
+  | .wEnq d => [d] ++ changes d s.wups
+
+theorem owed_stepLoop (fix : Bool) (s : Cfg) :
+    (stepLoop fix s).1.enq = s.enq ∧ owed (stepLoop fix s).1 = owed s := by
+  unfold stepLoop
+  split
+  · split
+    · exact ⟨rfl, rfl⟩
+    · rename_i op rest hl
+      cases op <;> simp only [] <;> (try split) <;> (try split) <;> simp_all [owed]
+  all_goals (try split) <;> simp_all [owed, ret]
+
+theorem owed_stepWorker (c : Conn) (base : Obj) (s : Cfg) (h : EvInv c base s) :
+    (stepWorker s).1.enq ++ owed (stepWorker s).1 = s.enq ++ owed s := by
+  obtain ⟨a1, _, _, _, _, a6⟩ := h
+  unfold stepWorker
+  split
+  · rename_i hw
+    rw [hw] at a6
+    split
+    · rfl
+    · rename_i u rest hl
+      split
+      · rename_i hv
+        simp [owed, hw, hl, changes, hv]
+      · rename_i hv
+        simp [owed, hw, hl, changes, hv]
+  · rename_i o ch hw
+    simp [owed, hw]
+  · rename_i o ch hw
+    simp [owed, hw]
+  · rename_i o ch hw
+    rw [hw] at a6
+    have hv : s.value = o := a6.1
+    cases ch <;> simp [owed, hw, hv]
+  · rename_i d hw
+    split
+    · simp [owed, hw]
+    · rename_i hk; exact absurd a1 hk
+  · rename_i d hw
+    rw [hw] at a6
+    have hv : d = s.value := a6
+    simp [owed, hw, hv]
+
+theorem handoff_run (fix : Bool) (c : Conn) (base : Obj) (bits : List Bool) (s : Cfg)
+    (h : EvInv c base s) :
+    (run fix bits s).enq ++ owed (run fix bits s) = s.enq ++ owed s := by
+  induction bits generalizing s with
+  | nil => rfl
+  | cons b bs ih =>
+    simp only [run]
+    have hstep : EvInv c base (step fix b s) := by
+      unfold step; split
+      · exact evInv_stepLoop fix c base s h
+      · exact evInv_stepWorker c base s h
+    rw [ih _ hstep]
+    unfold step
+    split
+    · obtain ⟨e1, e2⟩ := owed_stepLoop fix s
+      rw [e1, e2]
+    · exact owed_stepWorker c base s h
+
 end Hap.Race
